@@ -11,9 +11,15 @@ NOTES = ("Every check runs: P (lake build of Props.Cxx + per-theorem axiom audit
          "model's compiled driver with the real pytype code) -> W (replay of known/fixed witnesses) -> S (failing-input "
          "search on the real code, only when P or K broke). See DESIGN.md.")
 
+# Only properties listed in registry/READY (one id per line) are claimed in MANIFEST.json: a builder's registry
+# file may exist before its check has been verified by the coordinator.
+try:
+  _READY = {l.strip() for l in open(os.path.join(_D, "READY")) if l.strip() and not l.startswith("#")}
+except OSError:
+  _READY = set()
 CHECKS = {}
 for f in sorted(os.listdir(_D)):
-  if f.startswith("C") and f.endswith(".json"):
+  if f.startswith("C") and f.endswith(".json") and f[:-5] in _READY:
     CHECKS[f[:-5]] = json.load(open(os.path.join(_D, f)))
 
 _PENDING = "check not built yet (planned, DESIGN.md section 8); not a claim that the technique is inapplicable"
